@@ -425,6 +425,19 @@ fn report(ctx: &mut Ctx, sig: String, what: String, detail: J) {
 }
 
 pub fn run(ctx: &mut Ctx) {
+    // many threads at once (two per core) on values / strings that hold alone
+    if ctx.shard < 4 {
+        let base = base_atoms(&["A", "B"]);
+        let mut cases: Vec<(Fmt, ND)> = vec![];
+        for f in ALL_FMT {
+            let pick = universe_over(&base, 2, false);
+            let step = (pick.len() / 40).max(1);
+            cases.extend(pick.into_iter().step_by(step).take(40).enumerate().map(|(i, t)| (f, wrap_rotating(t, i + ctx.shard))));
+        }
+        let rounds = if ctx.thorough { 60 } else { 6 };
+        concurrent_family(ctx, "C15", "classification and conversion laws", cases, rounds, |c| enum_laws(c.0, &c.1));
+    }
+
     // extreme sizes (on a thread with a large stack), as term, sentence and task
     {
         let mut idx = 0usize;
